@@ -144,6 +144,33 @@ Proof.
 Qed.
 Print Assumptions C06_nack_refuted.
 
+(* F20 at its boundary: the re-base is decided against bitmap.first, which is
+   newest+1 after a duplicate of the newest packet; a packet exactly 256 behind
+   the newest one (not a restart for the statistics: restart_free) then
+   re-bases the window.  store 100..179, store 179 again, store 179-256 = 65459,
+   store 181: BitmapGet(179) denotes 150..166, all stored and still held. *)
+Definition f20_limit_history : list lop :=
+  map (fun i => LStore (100 + Z.of_nat i) false) (seq 0 80) ++
+  [LStore 179 false; LStore 65459 false; LStore 181 false].
+Theorem C06_nack_refuted_at_256 :
+  Forall wf_lop f20_limit_history /\
+  restart_free (new_cache 200) f20_limit_history = true /\
+  let c := lrun (new_cache 200) f20_limit_history in
+  exists f m c', bitmap_get c 179 = ((true, f, m), c') /\
+    nums f m = [150;151;152;153;154;155;156;157;158;159;160;161;162;163;164;165;166] /\
+    forallb (fun n => stored_in f20_limit_history n && cache_holds c n) (nums f m) = true.
+Proof.
+  split.
+  - unfold f20_limit_history. apply Forall_app. split.
+    + apply Forall_forall. intros o Hin. apply in_map_iff in Hin. destruct Hin as (i & <- & Hi).
+      apply in_seq in Hi. cbn [wf_lop]. unfold is16. lia.
+    + repeat constructor; cbn; unfold is16; lia.
+  - split; [vm_compute; reflexivity|].
+    cbv zeta. eexists _, _, _. split; [vm_compute; reflexivity|]. split; [vm_compute; reflexivity|].
+    vm_compute. reflexivity.
+Qed.
+Print Assumptions C06_nack_refuted_at_256.
+
 (* ---- the receive loop: never at or beyond the newest tracked ---- *)
 (* A NACK sent by a readLoop step for packet s denotes only numbers strictly
    older than s - unnacked (hence strictly older than s), each a position at
